@@ -786,6 +786,13 @@ class Folder:
             self._store(st, fidx, t["dest"], v)
             self._enter_block(st, t["target"])
             return
+        if name == "<T as std::convert::Into<U>>::into" and len(t.get("generics") or []) == 2:
+            # blanket impl: forwards to the crate's From impl, if there is one
+            src, dst = t["generics"]
+            cands = [p for p, r in self.facts.fns.items() if r.get("name") == "from" and r.get("inputs") == [src]
+                     and r.get("output") == dst]
+            if len(cands) == 1:
+                name = cands[0]
         callee = self.facts.fn(name) if name else None
         if callee is not None and callee.raw["kind"] != "Closure":
             if any(_has_top(a) for a in args):
